@@ -281,6 +281,46 @@ def table():
         out.append(
             Ovl(cls + ".attrs", ("C01", "C09"), {"self": s}, bindings={"IH5AttributeManager": Tr(("global", "IH5AttributeManager"))}, raises={"KeyError": z3.Not(truth(call(at(s, "_guard_open"))))} if False else {}, result=call(Tr(("global", "IH5AttributeManager")), at(s, "_record"), at(s, "_gpath"), at(s, "_cidx")), clause="the attribute set of a node is resolved from the same path and the same creation index as the node (after the open-guard)", result_pred=lambda cx, a, res, s=s: z3.BoolVal(same(res, call(Tr(("global", "IH5AttributeManager")), at(s, "_record"), at(s, "_gpath"), at(s, "_cidx"))) and [e[1] for e in cx.fx if e[0] == "call"][:1] == [show(call(at(s, "_guard_open")))]))
         )
+    # ---- IH5Record.ih5_meta / ih5_files: one entry per container, in container order ----
+    def by_index_schema(interp, cx, fr, e):
+        import ast
+
+        from pyvc.engine import Env, Frame
+        from pyvc.values import SInt
+
+        if not isinstance(e, ast.ListComp) or len(e.generators) != 1 or e.generators[0].ifs or not isinstance(e.generators[0].target, ast.Name):
+            return NotImplemented
+        g = e.generators[0]
+        gi = SInt(z3.Int("generic_container_index"))
+        sub = Frame(fr.modinfo, fr.qual, Env(fr.env), spec=fr.spec, cls=fr.cls)
+        src = ast.unparse(g.iter)
+        if src == "range(len(self.__files__))":
+            sub.env.set(g.target.id, gi)
+            return ("for-each-container-index", interp.eval(cx, sub, e.elt))
+        if src == "self.__files__":
+            sub.env.set(g.target.id, item(at(s, "__files__"), gi))
+            return ("for-each-container", interp.eval(cx, sub, e.elt))
+        return NotImplemented
+
+    def meta_pred(cx, a, res):
+        from pyvc.values import SInt
+
+        ok = isinstance(res, tuple) and res[0] == "for-each-container-index" and isinstance(res[1], Tr)
+        e = res[1].e if ok else None
+        ok = ok and e[0] == "call" and e[2] == () and e[1][0] == "attr" and e[1][2] == "copy" and e[1][1][0] == "call" and e[1][1][1] == ("attr", s.e, "_ublock") and len(e[1][1][2]) == 1 and isinstance(e[1][1][2][0], SInt)
+        return z3.BoolVal(False) if not ok else e[1][1][2][0].t == z3.Int("generic_container_index")
+
+    def files_pred(cx, a, res):
+        ok = isinstance(res, tuple) and res[0] == "for-each-container" and isinstance(res[1], Tr)
+        return z3.BoolVal(bool(ok and same(res[1], call(Tr(("global", "Path")), at(item(at(s, "__files__"), z3.Int("generic_container_index")), "filename")))))
+
+    class ByIndex(One):
+        def init(self):
+            One.init(self)
+            self.comps[0] = by_index_schema
+
+    out.append(ByIndex("ih5/record.py", "IH5Record.ih5_meta", ("C05", "C10", "C03"), {"self": s}, result_pred=meta_pred, clause="the user blocks of ALL containers, one per container index in container order, each as a COPY (callers cannot edit the record's own blocks)"))
+    out.append(ByIndex("ih5/record.py", "IH5Record.ih5_files", ("C03", "C09"), {"self": s}, bindings={"Path": Tr(("global", "Path"))}, result_pred=files_pred, clause="the file names of all containers, in container order (what is needed to reopen the record)"))
     # ---- harvesting pipeline (C14: results are combined by the partial-merge fold, in the given order) ----
     schema, sources, obj = Tr(("arg", "schema")), Tr(("arg", "sources")), Tr(("arg", "obj"))
     hs = Tr(("global", "_harvest_source"))
